@@ -1422,11 +1422,10 @@ class Array(
         concrete_type: Type,
     ) -> typing.Tuple[s_schema.Schema, Array]:
         st = self.get_subtypes(schema=schema)[0]
-        # TODO: maybe we should have a generic nested polymorphic algo?
-        if isinstance(st, (Range, MultiRange)):
-            schema, newst = st.to_nonpolymorphic(schema, concrete_type)
-        else:
-            newst = concrete_type
+        # The element of a polymorphic array is itself polymorphic: either
+        # a pseudo-type (replaced by the concrete type) or a nested
+        # collection (tuple, range) that must keep its structure.
+        schema, newst = st.to_nonpolymorphic(schema, concrete_type)
 
         return Array.from_subtypes(schema, (newst,))
 
